@@ -21,7 +21,7 @@ CHECKS = {
         "system is integrated for one symbolic step h by the real integrator __call__ of every shipped class (explicit, implicit via exact Picard roots "
         "of the real algebraic_system, splitting schemes on bicoloured trees, Richardson wrappers with 2..5 levels) and z3 decides for all h that the "
         "root component equals h^n/gamma(tau) within 2^-23 relative; embedded rows and the c column are checked the same way; 'warm' instances repeat the low-order trees on an integrator "
-        "object that has just stepped a different equation ending where the step starts. Bounded by tree order; "
+        "object that has just stepped a different equation ending where the step starts, '2d-layout' instances store the state of the splitting schemes as a (2, n) matrix. Bounded by tree order; "
         "universal over h.", "DESIGN.md 3/C01",
         "Butcher's theorem and the local->global convergence theorem are the trusted mathematical base; RadauIIA19 orders 11..19 via simplifying assumptions B,C,D."),
     "C02": _entry("other",
@@ -36,7 +36,7 @@ CHECKS = {
         "OdeSystem.__init__/integrate run symbolically with t0, tf, dt0 and later targets as arbitrary reals (any sign, either direction, dt larger or smaller than the span); "
         "all feasible paths within N steps: first row (t0,y0), paired rows, strictly monotone toward the target, no overshoot, ends within 64 eps*scale of the target, "
         "status completed, termination within the step bound, and every recorded row advances time AND state by the increment of the same accepted attempt (pairing); one call and "
-        "sequences of integrate(t) calls incl. reversal and already-there.", "DESIGN.md 3/C03",
+        "sequences of integrate(t) calls incl. reversal and already-there; the same grid assertions on runs that monitor events (events oracle: rolled-back / re-recorded steps, buffer growth).", "DESIGN.md 3/C03",
         "|tf-t0| <= N*|dt0| with N = 3 (quick) / 5 (thorough)."),
     "C04": _entry("other",
         "Same symbolic runs restricted to |dt0| <= span: every recorded step but the last (of each call; one call and two consecutive calls) has magnitude |dt0| and none is longer, also when the second call turns round towards / onto / beyond the original start time "
@@ -47,7 +47,8 @@ CHECKS = {
         "Partial claim (second sentence): the real retry loop with h of either sign - every retry strictly smaller and same sign, result is the last attempt, all-reject raises "
         "FailedToMeetTolerances (FailedIntegration through OdeSystem, no row recorded); through OdeSystem a recorded row is exactly the last (accepted) attempt from its start time; the REAL update_timestep / implicit_aware_update_timestep decided in isolation with "
         "axiomatised pow/arctan: corr in (0.2, 2.6), redo <=> corr < 0.81, accept => scaled error <= 1, error >= 4 => redo; two consecutive real __call__s with the real controller: a step "
-        "accepted at its first attempt meets the tolerance formed from its OWN state whatever the previous step looked like; Richardson re-entry shrinks and terminates.",
+        "accepted attempt (after an earlier step and after rejected attempts of the same call) meets the tolerance formed from its OWN data; tolerance flow: symbolic rtol/atol set through the "
+        "constructor or the setters (before / after a first leg) reach the controller and the basis integrators of Richardson wrappers; Richardson re-entry shrinks and terminates.",
         "DESIGN.md 3/C05", "First sentence (global error proportional to tolerances) is NOT claimed: not solver-decidable with a useful bound."),
     "C06": _entry("other",
         "With dense output on, t0, tf, dt0 and a query q symbolic: sol(t_i) = y_i; the piece chosen by find_interval and find_interval_vec contains q for every q in the integrated "
@@ -59,29 +60,30 @@ CHECKS = {
         "enumerated) and the root finder replaced by the bracket_root stub: every returned event had success, lies in the bracket within sqrt(eps)*|step| of the true root, crosses in a "
         "requested direction, list sorted along the integration direction and cut after the first terminal event; (B) the REAL event section of integrate with an events oracle "
         "constrained only by (A): every recorded event was reported, lies inside its step, its state is that step's interpolant at the event time, events are in integration order "
-        "and no crossing is recorded twice.", "DESIGN.md 3/C07-C09", "Root location itself is C14; distance to a root of the exact trajectory is outside."),
+        "and no crossing is recorded twice - also not a crossing on the boundary between two integrate(events=...) calls.", "DESIGN.md 3/C07-C09", "Root location itself is C14; distance to a root of the exact trajectory is outside."),
     "C08": _entry("other",
         "(A) REAL handle_events with an exactly located, strictly interior crossing in a requested direction: the event IS returned for every scale 2^-20..2^20, direction of integration and "
         "number of events unless an earlier terminal event cuts the list; (B) REAL integrate with the events oracle: every detector report that is not a repeat of the same event "
         "within eps^0.7 is recorded - true_positive filter, duplicate filter (events never merged) and interpolant pruning with dense_output=False, both directions; (C) bit-precise end of the "
+        "detector is handed the interpolant of the step under examination (three steps with dense_output=False); after a detector fault and a repeated integrate() every recorded step was examined; (C) bit-precise end of the "
         "chain: the QF_FP witnesses of C14's lemma (adjacent floats bracketing a steep time event, x in +-(0.5,2), +-(4,8), +-(64,128)) are given to the REAL handle_events + brentsrootvec in both directions: the event is reported.",
         "DESIGN.md 3/C07-C09", "End-to-end completeness additionally needs the root-finder guarantee of C14 (known finding c14.absolute_residual_success)."),
     "C09": _entry("other",
         "(A) REAL handle_events with >= 2 events, at least one terminal: only events up to the first terminal one along the direction of integration are returned, the list ends at "
         "the EARLIEST located terminal crossing; (B) REAL integrate with the events oracle and mixes of terminal/non-terminal events, both directions, finite and infinite tf: last time = terminal root, nothing beyond, strictly "
         "monotone rows, last reported event is the terminal one, no detector call afterwards, status terminated-by-event = success, callbacks once per outer step; dense output one "
-        "piece per recorded step, contiguous from t0 to the root with end slopes = f at recorded states; a following integrate() continues monotonically to tf.",
+        "piece per recorded step, contiguous from t0 to the root with end slopes = f at recorded states; a following integrate() continues monotonically to tf; detector-fault histories (the event search raises, integrate() is called again: the terminal event is still honoured).",
         "DESIGN.md 3/C07-C09"),
     "C10": _entry("other",
         "Hamiltonian uninterpreted: the real ExplicitSymplecticIntegrator.__call__ on dual numbers with a right-hand side of arbitrary separable Hamiltonian structure: whole-step "
         "M^T J M = J as a polynomial identity and per-stage form (each stage factor symplectic, real update has the drift/kick form) for 1-2 d.o.f.; step(h);step(-h) = identity with "
-        "congruent T'(p), V'(q) on fresh integrators AND on one integrator object through two round trips from different states, also after a step on that object was abandoned by an rhs exception at its k-th evaluation (the step map must not depend on the object's history); kick masks by default, constructor and set_kick_vars; implicit symplectic classes: b_i a_ij + b_j a_ji = b_i b_j, symmetry, R(z)R(-z) = 1, real step "
+        "congruent T'(p), V'(q) on fresh integrators AND on one integrator object through two round trips from different states, also after a step on that object was abandoned by an rhs exception at its k-th evaluation (the step map must not depend on the object's history); kick masks by default, constructor and set_kick_vars, and a default-mask integrator built AFTER a custom-mask one of the same shape; implicit symplectic classes: b_i a_ij + b_j a_ji = b_i b_j, symmetry, R(z)R(-z) = 1, real step "
         "= R on the rotation block.", "DESIGN.md 3/C10", "Closure of the symplectic group and the Sanz-Serna/Lasagni tableau condition are the trusted mathematical base; energy drift is a consequence, not decided."),
     "C11": _entry("other",
         "For all 16 implicit classes, R = P/Q built at run time from the exact rational values of the float64 tableau entries: z3 proves |R(z)|^2 <= 1+1e-9 and det(I - zA) != 0 for ALL z "
         "with Re z <= 0 (two-variable queries for <= 3 stages; Hermite-Biehler interlacing certificate + axis bound + maximum modulus for every class incl. RadauIIA19); the real "
         "RungeKuttaIntegrator.step on y'=lambda*y, a 2x2 rotation block and a diagonal pair with the exact-root stub satisfies Q(z)(y+dY) = P(z)y; the full __call__ with a failed "
-        "first stage solve and an exactly solved retry keeps the direction of h and does not increase |y|.", "DESIGN.md 3/C11",
+        "first stage solve and an exactly solved retry keeps the direction of h and does not increase |y|; two consecutive calls with the decay rate changed through the constants: the second step is R(z_new).", "DESIGN.md 3/C11",
         "Slack 1e-9 on |R|^2 (rounded coefficients). Trusted base for RadauIIA19: Hermite-Biehler theorem, maximum-modulus principle."),
     "C12": _entry("fault_enumeration",
         "Crash points enumerated exhaustively within the bound (every rhs-evaluation index / callback invocation / event-function evaluation of runs of <= N steps, four exception "
@@ -93,40 +95,40 @@ CHECKS = {
     "C13": _entry("other",
         "All operation sequences up to the length bound over {integrate, integrate(T), set dt/tol/method, set_kick_vars, integrate with an event, faulting integrate, reset} with symbolic "
         "arguments: integrate() at the target is a no-op; reset() restores (t0,y0), no events, empty dense output, dt0, nfev 0, status 0 and the next run (rows and dense pieces) is "
-        "term-identical to a fresh system's; caller's y0/constants untouched; split runs keep the rows before the split.", "DESIGN.md 3/C13",
+        "term-identical to a fresh system's (histories with events re-run WITH the same event function: recorded events equal the fresh system's); caller's y0/constants untouched; split runs keep the rows before the split.", "DESIGN.md 3/C13",
         "bit-for-bit is decided as term identity over R; adaptive 'within tolerance' not claimed."),
     "C17": _entry("other",
         "For every array length up to the bound, every strictly increasing real array and every real query (scalar and vector), z3 shows on every feasible path of the real "
         "search_bisection/search_bisection_vec that the returned index is the first element >= query (clipped) and that both agree; CubicHermiteInterp is exact (value and gradient) "
-        "on the general cubic with symbolic coefficients, interval of either orientation, symbolic evaluation point, scalar, vector and matrix-valued data (incl. leading dimension 4).", "DESIGN.md 3/C17",
+        "on the general cubic with symbolic coefficients, interval of either orientation, symbolic evaluation point, scalar, vector and matrix-valued data (incl. leading dimension 4); integer-typed knots.", "DESIGN.md 3/C17",
         "Array lengths <= 6 (quick) / 7 (thorough); vector queries <= 2 / 3."),
     "C14": _entry("other",
         "For every feasible path of the real brentsroot and brentsrootvec (1-3 components) under the unwinding assumption |b-a| <= 2^k*tol, z3 shows for ALL real brackets (either order), "
         "tolerances in [4*eps64, 1e-3] (plus None and below-floor) and function parameters of the families linear s*(x-r) (s = +-1e-6..1e9 concrete and symbolic; root inside/outside/at an "
         "end) and jump (-u | +v): the returned point lies in the closed bracket or no success is claimed; a bracketed sign change is located to within tol and success is reported; "
-        "success implies |f| <= tol or a sign change within tol; no sign change and |f| > tol at both ends implies no success; the loop never reaches the iteration cap; vector and "
+        "a root exactly on a bracket end is found and reported; success implies |f| <= tol or a sign change within tol; no sign change and |f| > tol at both ends implies no success; the loop never reaches the iteration cap; vector and "
         "scalar solver agree whenever f(a)f(b) < 0.  A bit-precise QF_FP lemma exhibits adjacent floats (x in +-(0.5,2), +-(4,8), +-(64,128)) bracketing a sign change with both residuals above tol and the real brentsroot AND brentsrootvec are run on it.",
         "DESIGN.md 3/C14", "k = 4/3 halvings (quick), 8/7 (thorough); vector lengths 1..3; two-root quadratics thorough-only (may end inconclusive). Known findings: "
         "c14.absolute_residual_success (flat functions, literal reading), c14.vec_unbracketed_result."),
     "C16": _entry("other",
         "Real JacobianWrapper (adaptive and fixed Richardson depth, flat both ways, base order 2/4/5) on affine maps with symbolic A, f(y), y (shapes scalar, (2,)->(2,), (3,)->(2,), "
         "(2,2)->(3,)) and polynomial maps of degree <= 4: entry [i...,j...] equals df_i/dy_j up to the rounding noise of the float64 stencil weights, shape (*shape f, *shape y); the "
-        "real DiffRHS.jac under every history of <= 3 (quick) / 4 (thorough) operations over {jac at fresh symbolic (t,y), hook, unhook, rhs.jac=, set_jac_base_order, copy.copy of the wrapper (as OdeSystem does)}: attached user "
+        "real DiffRHS.jac under every history of <= 3 (quick) / 4 (thorough) operations over {jac at fresh symbolic (t,y), hook, unhook, rhs.jac=, set_jac_base_order, copy.copy of the wrapper (as OdeSystem does), a request during which the rhs raises}: attached user "
         "Jacobians are called once with the requested (t,y) and returned unchanged, otherwise the finite-difference result is for the requested t and state; njev counts answered requests.",
         "DESIGN.md 3/C16", "Accuracy on non-polynomial functions is outside."),
     "C18": _entry("other",
         "The real solve_ivp with symbolic t_span, first_step, max_step, t_eval entries (unsorted, repeated, with/without end points), y0 of shape (2,) and (2,2), args, methods by name "
         "and class, and in the same path the object API with the same settings: shapes, columns pair with times, first column y0, t_eval times exactly the requested ones along the "
-        "direction of integration with columns equal to the object API's states, args (tuples shorter than, and as long as, the rhs parameter list with defaults) bound positionally at every evaluation, no step above max_step, counters/status those of the system.",
+        "direction of integration with columns equal to the object API's states, args (tuples shorter than, and as long as, the rhs parameter list with defaults) bound positionally at every evaluation, no step above max_step, counters/status those of the system; t_eval together with dense_output=True.",
         "DESIGN.md 3/C18", "Parity with scipy.integrate.solve_ivp is not applicable to this technique (independent compiled numerics)."),
     "C19": _entry("other",
         "On symbolic trajectories (forward, backward, continued, ctrl-adaptive): every integer index in [-len-2, len+2] has sequence semantics, iteration yields each row once in order, "
         "a lookup at an arbitrary real time returns a recorded sample nearest in time (dense: (q, sol(q))), a slice spanning the run returns the run; also for runs AGAINST the "
-        "direction of the constructor's span.", "DESIGN.md 3/C19"),
+        "direction of the constructor's span, and for non-dense runs that monitored an event function.", "DESIGN.md 3/C19"),
     "C20": _entry("other",
         "Independent counters inside the user rhs / Jacobian: on every feasible path of explicit, FSAL+rejection, splitting, implicit (user Jacobian and real finite-difference "
         "JacobianWrapper) runs nfev equals the completed user calls at every callback and at the end, also after faults and reset; callbacks in the given order, after the new row "
-        "is visible, once per recorded step; a dt assigned by a callback is the magnitude of the next attempted step; two systems built on ONE rhs callable and used alternately each count only their own calls / Jacobian requests.", "DESIGN.md 3/C20"),
+        "is visible, once per recorded step; a dt assigned by a callback is the magnitude of the next attempted step; two systems built on ONE rhs callable and used alternately each count only their own calls / Jacobian requests; with events (oracle): callbacks once per outer step that recorded rows, each sees new rows, the last sees the final row.", "DESIGN.md 3/C20"),
 }
 
 NOT_APPLICABLE = [
